@@ -1,6 +1,6 @@
-//! Harness programs: one per account-discriminant width (0, 1, 2, 3, 4, 8, 16 bytes; integer and
-//! byte-array discriminant types), each with a zero-copy account type (`Zc`, a 2-byte Pod body) and
-//! two borsh-backed account types (`Fix`: fixed size, `Var`: `Vec<u8>` + `String`).
+//! Harness programs: one per account-discriminant width (0, 1, 2, 3, 4, 5, 6, 7, 8, 12, 16, 24, 32 bytes;
+//! integer and byte-array discriminant types), each with two zero-copy account types (`Zc`: a 2-byte Pod body, `Zc0`:
+//! a ZERO-SIZED body) and three borsh-backed ones (`Fix`: fixed size, `Var`: `Vec<u8>` + `String`, `Unit`: empty).
 //!
 //! Program ids and discriminants follow the same formula as `progIdOf` / `discOf` in
 //! `lean/Account/Account/Driver/ProgAcct.lean`.
@@ -13,12 +13,19 @@ pub const fn prog_id(w: u8) -> [u8; 32] {
     b
 }
 
-/// kind index: 0 = zc, 1 = fix, 2 = var
+/// kind index: 0 = zc, 1 = fix, 2 = var, 3 = zc0 (zero-sized zero-copy body), 4 = unit (empty borsh body)
 pub const fn disc_bytes<const W: usize>(kind: u8) -> [u8; W] {
+    let base: u8 = match kind {
+        0 => 0x21,
+        1 => 0x61,
+        2 => 0xa1,
+        3 => 0xe1,
+        _ => 0x31,
+    };
     let mut b = [0u8; W];
     let mut j = 0;
     while j < W {
-        b[j] = 0x21 + 0x40 * kind + 5 * (j as u8);
+        b[j] = base.wrapping_add(5u8.wrapping_mul(j as u8));
         j += 1;
     }
     b
@@ -65,6 +72,17 @@ macro_rules! prog {
                 pub b: u8,
             }
 
+            /// Zero-sized zero-copy body: an account of this type is exactly its discriminant.
+            #[zero_copy(pod)]
+            #[derive(Default, Debug, Eq, PartialEq, ProgramAccount)]
+            #[program_account(program = Prog, discriminant = $mk(disc_bytes::<$w>(3)), skip_idl)]
+            pub struct Zc0 {}
+
+            /// Empty borsh body.
+            #[derive(BorshSerialize, BorshDeserialize, Default, Debug, Clone, PartialEq, Eq, ProgramAccount)]
+            #[program_account(program = Prog, discriminant = $mk(disc_bytes::<$w>(4)), skip_idl)]
+            pub struct Unit;
+
             #[derive(BorshSerialize, BorshDeserialize, Default, Debug, Clone, PartialEq, Eq, ProgramAccount)]
             #[program_account(program = Prog, discriminant = $mk(disc_bytes::<$w>(2)), skip_idl)]
             pub struct Var {
@@ -81,8 +99,14 @@ prog!(p1, 1, u8, mk_u8);
 prog!(p2, 2, u16, u16::from_le_bytes);
 prog!(p3, 3, [u8; 3], mk_arr);
 prog!(p4, 4, u32, u32::from_le_bytes);
+prog!(p5, 5, [u8; 5], mk_arr);
+prog!(p6, 6, [u8; 6], mk_arr);
+prog!(p7, 7, [u8; 7], mk_arr);
 prog!(p8, 8, u64, u64::from_le_bytes);
+prog!(p12, 12, [u8; 12], mk_arr);
 prog!(p16, 16, [u8; 16], mk_arr);
+prog!(p24, 24, [u8; 24], mk_arr);
+prog!(p32, 32, [u8; 32], mk_arr);
 
 /// A zero-copy type of the width-1 program whose discriminant IS the closed-account marker: the
 /// exclusion in the property ("for non-empty discriminants other than the closed marker") is real.
